@@ -132,6 +132,15 @@ func c12Scenarios(tier string) []*Scenario {
 			la.Name += "/local-address"
 			out = append(out, la)
 			c12LocalAddr = false
+			// the same with the watchdog enabled and a peer that answers every DWR
+			c12Watchdog = true
+			for _, ex := range [][]string{{"raa"}, {"dup", "raa"}} {
+				wd := c12Scenario(R, sc, ex, bound)
+				wd.Name += "/watchdog-enabled"
+				wd.Horizon = 7 * c12Interval
+				out = append(out, wd)
+			}
+			c12Watchdog = false
 		}
 		if R == 0 {
 			out = append(out, c12Redial(bound))
@@ -192,8 +201,13 @@ func c12Scenario(R int, script []c12Act, extras []string, bound int) *Scenario {
 // c12LocalAddr: no HostIPAddresses configured - the CER must carry the connection's local address.
 var c12LocalAddr = false
 
+// c12Watchdog: the client has its watchdog enabled (interval = 2 handshake intervals); the peer
+// answers every DWR. After a successful handshake the connection must still be open at the horizon.
+var c12Watchdog = false
+
 func c12ScenarioSlow(R int, script []c12Act, extras []string, bound int, slow []time.Duration) *Scenario {
 	localAddr := c12LocalAddr
+	watchdog := c12Watchdog
 	body := func() {
 		st := &c12State{}
 		c12st = st
@@ -211,7 +225,7 @@ func c12ScenarioSlow(R int, script []c12Act, extras []string, bound int, slow []
 		mach := sm.New(settings)
 		mach.HandleFunc("RAA", func(c diam.Conn, m *diam.Message) { st.raaHandled++; vs.Event("application handler got RAA") })
 		cli := &sm.Client{Handler: mach, Dict: dict.Default, MaxRetransmits: uint(R), RetransmitInterval: c12Interval,
-			EnableWatchdog: false,
+			EnableWatchdog: watchdog, WatchdogInterval: 2 * c12Interval,
 			AuthApplicationID: []*diam.AVP{diam.NewAVP(avp.AuthApplicationID, avp.Mbit, 0, datatype.Unsigned32(4))},
 			AcctApplicationID: []*diam.AVP{diam.NewAVP(avp.AcctApplicationID, avp.Mbit, 0, datatype.Unsigned32(3))},
 			VendorSpecificApplicationID: []*diam.AVP{diam.NewAVP(avp.VendorSpecificApplicationID, avp.Mbit, 0, &diam.GroupedAVP{AVP: []*diam.AVP{
@@ -224,6 +238,11 @@ func c12ScenarioSlow(R int, script []c12Act, extras []string, bound int, slow []
 				m := p.Next()
 				if m == nil {
 					return
+				}
+				if watchdog && m.Hdr.Code == 280 && m.Hdr.Flags&0x80 != 0 {
+					conn.Deliver(peerAnswer(m, 2001, false))
+					k--
+					continue
 				}
 				if m.Hdr.Code != 257 {
 					st.note = append(st.note, fmt.Sprintf("peer received command %d during the handshake", m.Hdr.Code))
